@@ -393,6 +393,32 @@ fn run<A: Cont>(len: usize, toks: &[&str]) -> String {
                     if ok { slots[idx].refresh(); "ok".into() } else { "n/a".into() }
                 }
                 "drop" => { let r = take!(); drop(r); "ok".into() }
+                // tdrop — the region is handed to ANOTHER thread and released there (a worker thread finishing with a key): same wipes
+                "tdrop" => {
+                    struct SendBox<T>(T);
+                    unsafe impl<T> Send for SendBox<T> {}
+                    let r = SendBox(take!());
+                    std::thread::scope(|sc| { sc.spawn(move || { let b = r; drop(b); }); });
+                    "ok".into()
+                }
+                // tresize:N — the region is resized on another thread (the reallocation and the release of the old block happen there)
+                "tresize" => {
+                    if idx >= slots.len() { return "noslot".into(); }
+                    let n: usize = arg.parse().unwrap_or(0);
+                    struct SendPtr<T>(*mut T);
+                    unsafe impl<T> Send for SendPtr<T> {}
+                    let p = SendPtr(&mut slots[idx].r as *mut Reg<A>);
+                    let okr = std::thread::scope(|sc| sc.spawn(move || {
+                        let p = p;
+                        match unsafe { &mut *p.0 } {
+                            Reg::Plain(a) => a.resize_plain(n),
+                            Reg::UR(q) => A::resize_unlocked(q, n),
+                            Reg::LR(q) => A::resize_locked(q, n),
+                            _ => false,
+                        }
+                    }).join().unwrap_or(false));
+                    if okr { slots[idx].refresh(); "ok".into() } else { "n/a".into() }
+                }
                 // an explicit Zeroize::zeroize() on the live container (public trait): only on plain / unlocked read-write
                 // regions, where it leaves the type state intact (outside the Lean model: judged by the release events alone)
                 "zeroize" => {
@@ -446,6 +472,15 @@ fn run<A: Cont>(len: usize, toks: &[&str]) -> String {
                     match r {
                         Ok(r) => { let mut s = Slot { r, ptr: 0, len: 0 }; s.refresh(); slots.push(s); "ok".into() }
                         Err(_) => "err".into(),
+                    }
+                }
+                // defaultlocked — `Locked::<A>::default()` (also what `std::mem::take` leaves behind): a region that is really locked, or a
+                // panic (Default has no Result) — never a region typed Locked that the kernel has not locked
+                "defaultlocked" => {
+                    let r = std::panic::catch_unwind(std::panic::AssertUnwindSafe(|| Locked::<A>::default()));
+                    match r {
+                        Ok(r) => { let mut s = Slot { r: Reg::LR(r), ptr: 0, len: 0 }; s.refresh(); slots.push(s); "ok".into() }
+                        Err(_) => "panic-default".into(),
                     }
                 }
                 // failsys — an unrelated system call of the application fails on this thread (errno stays set): must not influence anything
